@@ -365,6 +365,22 @@ pub fn check_hooks_bytes(ctx: &Ctx, bytes: &Vec<u8>) -> Result<(), Fail> {
                         region_of(if h == "HMeta" { "HExpr" } else { h }, m)
                     }
                 };
+                // whatever its form, a meta item reaches an implementor's own `from_meta` (a literal its `from_value`)
+                let reached = match (h, item) {
+                    ("HMeta", NestedMeta::Meta(_)) | ("HValue", NestedMeta::Lit(_)) => true,
+                    _ => false,
+                };
+                if reached {
+                    let msg = e.as_ref().map(|x| x.to_string()).unwrap_or_default();
+                    ensure!(
+                        msg.starts_with("hook refuses"),
+                        format!("c03s:hooks:override-bypassed:{}", h),
+                        "{}::from_nested_meta on an item of `{}` answered `{}`: the overridden hook was not called",
+                        h,
+                        src,
+                        msg
+                    );
+                }
                 expect_span(h, "from_nested_meta", &src, e, region, name)
             },
         )?;
